@@ -10,7 +10,7 @@ CONSTANTS
   EpochLen = 432000
   EpochSet = {eps}
   MaxEpochs = {me}
-  MaxBlocks = 4
+  MaxBlocks = {mb}
   MaxEntries = 3
   MaxTxs = 3
   Accts = {{1, 2, 3}}
@@ -22,8 +22,8 @@ CHECK_DEADLOCK FALSE
 LEDGER = ["Ledger", "Gen_Ledger"]
 
 
-def gen_archives(ctx, n, name="Gen_Ledger", eps="{0, 1, 2, 5, 700}", me=3, mine=1, mintx=4, depth=90):
-    cases = ctx.r2_generate(LEDGER, "Gen_Ledger", GEN.format(eps=eps, me=me, mine=mine, mintx=mintx), name=name, simulate=n, depth=depth)
+def gen_archives(ctx, n, name="Gen_Ledger", eps="{0, 1, 2, 5, 700}", me=3, mine=1, mintx=4, depth=90, mb=4):
+    cases = ctx.r2_generate(LEDGER, "Gen_Ledger", GEN.format(eps=eps, me=me, mine=mine, mintx=mintx, mb=mb), name=name, simulate=n, depth=depth)
     seen, out = set(), []
     for c in cases:
         k = sha(c)
